@@ -37,13 +37,20 @@ pub fn run(args: Vec<String>) {
     for base in bases.iter() {
         for rel0 in rels.iter() {
             for lead in ["", "/"] {
-                for suffix in [false, true] {
+                // suffix modes: 0 none, 1 the optional suffix, 2 the suffix twice (only one is optional),
+                // 3 the other kind's suffix (not optional: `.wxs` on a template reference and vice versa)
+                for suffix in [0, 1, 2, 3] {
                     i += 1;
                     if i % nshards != shard {
                         continue;
                     }
                     let rel = format!("{}{}", lead, rel0);
-                    let (rw, rs) = if suffix { (format!("{}.wxml", rel), format!("{}.wxs", rel)) } else { (rel.clone(), rel.clone()) };
+                    let (rw, rs) = match suffix {
+                        1 => (format!("{}.wxml", rel), format!("{}.wxs", rel)),
+                        2 => (format!("{}.wxml.wxml", rel), format!("{}.wxs.wxs", rel)),
+                        3 => (format!("{}.wxs", rel), format!("{}.wxml", rel)),
+                        _ => (rel.clone(), rel.clone()),
+                    };
                     let src = format!(
                         "<import src=\"{}\"/><include src=\"{}\"/><wxs module=\"m\" src=\"{}\"/>",
                         rw, rw, rs
@@ -52,7 +59,7 @@ pub fn run(args: Vec<String>) {
                     g.add_tmpl(base, &src);
                     let deps: Vec<String> = g.direct_dependencies(base).map(|x| x.collect()).unwrap_or_default();
                     let sdeps: Vec<String> = g.script_dependencies(base).map(|x| x.collect()).unwrap_or_default();
-                    writeln!(out, "{}\t{}\t{}\t{}\t{}", base, rel, if suffix { 1 } else { 0 }, serde_json::to_string(&deps).unwrap(), serde_json::to_string(&sdeps).unwrap()).unwrap();
+                    writeln!(out, "{}\t{}\t{}\t{}\t{}", base, rel, suffix, serde_json::to_string(&deps).unwrap(), serde_json::to_string(&sdeps).unwrap()).unwrap();
                 }
             }
         }
